@@ -137,7 +137,15 @@ class Strings:
                         return ex.split(self.any_is_num(a), st, lambda s: ex.ok(SStr(struct=('fmt', fmt.lit, args)), s),
                                         lambda s: ex.exc('TypeError', s))
                     raise Unsupported('%%d of %r' % (a,))
-            return ex.ok(SStr(struct=('fmt', fmt.lit, args)), st)
+            r = SStr(struct=('fmt', fmt.lit, args))
+            if fmt.lit.endswith('%s') and args and isinstance(args[-1], SStr):
+                from .models import msg_subject
+                st.assume(msg_subject(r.t) == args[-1].t)      # the message names its last %s argument
+            elif fmt.lit.endswith('%s') and args and isinstance(args[-1], SRef):
+                hk = ex.hooks.get('str_of_ref')
+                if hk:
+                    hk(r, args[-1], st)
+            return ex.ok(r, st)
         raise Unsupported('format of %r' % (fmt,))
 
     def str_denotes(self, s, num, den, st):
